@@ -348,8 +348,37 @@ func analyse(fn *ssa.Function) {
 			}
 		}
 	}
+	// handOut: a shared mutable Lua object (see luaShared) leaves the package: argument of a call, stored in
+	// non-local memory, returned
+	handOut := func(v ssa.Value, how string) {
+		if len(luaShared) == 0 || isInit(fn) || !tx.InModule(fn) {
+			return
+		}
+		for b := range a.valBase(v) {
+			if b.g != nil && b.d == 1 {
+				if why, ok := luaShared[b.g]; ok {
+					n := gname(b.g)
+					if _, done := s.wr[n]; !done {
+						s.wr[n] = "shared mutable Lua object (" + why + ") handed to a runtime: " + how
+						changed = true
+					}
+				}
+			}
+		}
+	}
 	for _, bl := range fn.Blocks {
 		for _, ins := range bl.Instrs {
+			if ci, ok := ins.(ssa.CallInstruction); ok {
+				for _, arg := range ci.Common().Args {
+					handOut(arg, "passed to "+ci.Common().String())
+				}
+			}
+			switch x := ins.(type) {
+			case *ssa.Return:
+				for _, r := range x.Results {
+					handOut(r, "returned")
+				}
+			}
 			switch x := ins.(type) {
 			case *ssa.MakeClosure:
 				for _, bv := range x.Bindings {
@@ -358,6 +387,9 @@ func analyse(fn *ssa.Function) {
 			case *ssa.Store:
 				if rootAlloc(x.Addr) == nil {
 					escape(x.Val, "stored in non-local memory")
+					if _, isG := x.Addr.(*ssa.Global); !isG {
+						handOut(x.Val, "stored in non-local memory")
+					}
 				}
 				if _, ok := x.Addr.(*ssa.Global); ok {
 					note(a.valBase(x.Addr), "store")
@@ -456,6 +488,115 @@ func analyse(fn *ssa.Function) {
 	}
 }
 
+// luaShared: package-level variables that HOLD a mutable Lua object (a *Table, *UserData, *Thread, *Closure, *Runtime,
+// directly or inside a struct/slice/map/array, or a runtime.Value assigned from TableValue/UserDataValue/...).  Such an
+// object is created once per process; when code outside init hands it to a runtime (as a metatable, registry entry,
+// table field, result ...) every runtime's Lua programs can reach and mutate the same object.
+var luaShared = map[*ssa.Global]string{}
+
+func mutableLuaType(t types.Type, depth int) bool {
+	if depth > 4 {
+		return false
+	}
+	switch u := t.(type) {
+	case *types.Pointer:
+		if n, ok := u.Elem().(*types.Named); ok && n.Obj().Pkg() != nil && n.Obj().Pkg().Path() == tx.Module+"/runtime" {
+			switch n.Obj().Name() {
+			case "Table", "UserData", "Thread", "Closure", "Runtime", "LuaCont":
+				return true
+			}
+		}
+		return false
+	case *types.Named:
+		if n := u.Obj(); n.Pkg() != nil && n.Pkg().Path() == tx.Module+"/runtime" && n.Name() == "Value" {
+			return false // decided by what is stored in it, see findLuaShared
+		}
+		return mutableLuaType(u.Underlying(), depth+1)
+	case *types.Struct:
+		for i := 0; i < u.NumFields(); i++ {
+			if mutableLuaType(u.Field(i).Type(), depth+1) {
+				return true
+			}
+		}
+	case *types.Slice:
+		return mutableLuaType(u.Elem(), depth+1)
+	case *types.Array:
+		return mutableLuaType(u.Elem(), depth+1)
+	case *types.Map:
+		return mutableLuaType(u.Elem(), depth+1) || mutableLuaType(u.Key(), depth+1)
+	}
+	return false
+}
+
+func isValueType(t types.Type) bool {
+	n, ok := t.(*types.Named)
+	return ok && n.Obj().Pkg() != nil && n.Obj().Pkg().Path() == tx.Module+"/runtime" && n.Obj().Name() == "Value"
+}
+
+// valueHoldsObject: is the runtime.Value v built from a table / userdata / thread / Lua closure?
+func valueHoldsObject(v ssa.Value, depth int) bool {
+	if depth > 5 {
+		return false
+	}
+	switch x := v.(type) {
+	case *ssa.Call:
+		if cal := x.Common().StaticCallee(); cal != nil && tx.FnPkgPath(cal) == tx.Module+"/runtime" {
+			switch cal.Name() {
+			case "TableValue", "UserDataValue", "ThreadValue", "NewUserDataValue", "ContValue":
+				return true
+			case "FunctionValue", "AsValue":
+				for _, a := range x.Common().Args {
+					if mi, ok := a.(*ssa.MakeInterface); ok {
+						a = mi.X
+					}
+					if _, isPtr := a.Type().(*types.Pointer); isPtr && mutableLuaType(a.Type(), 0) {
+						return true
+					}
+				}
+			}
+		}
+	case *ssa.Phi:
+		for _, e := range x.Edges {
+			if valueHoldsObject(e, depth+1) {
+				return true
+			}
+		}
+	case *ssa.Extract:
+		return valueHoldsObject(x.Tuple, depth+1)
+	}
+	return false
+}
+
+func findLuaShared(l *tx.Loaded) {
+	for fn := range l.Funcs {
+		for _, b := range fn.Blocks {
+			for _, ins := range b.Instrs {
+				st, ok := ins.(*ssa.Store)
+				if !ok {
+					continue
+				}
+				g, ok := st.Addr.(*ssa.Global)
+				if !ok || g.Pkg == nil || !strings.HasPrefix(g.Pkg.Pkg.Path(), tx.Module) {
+					continue
+				}
+				if isValueType(g.Type().(*types.Pointer).Elem()) && valueHoldsObject(st.Val, 0) {
+					luaShared[g] = "a runtime.Value holding a table/userdata/thread"
+				}
+			}
+		}
+	}
+	for _, sp := range l.Prog.AllPackages() {
+		if !strings.HasPrefix(sp.Pkg.Path(), tx.Module) {
+			continue
+		}
+		for _, m := range sp.Members {
+			if g, ok := m.(*ssa.Global); ok && mutableLuaType(g.Type().(*types.Pointer).Elem(), 0) {
+				luaShared[g] = "holds a mutable Lua object (" + g.Type().(*types.Pointer).Elem().String() + ")"
+			}
+		}
+	}
+}
+
 // methods of module types by name, for interface calls
 var methodsByName = map[string][]*ssa.Function{}
 var invokeMemo = map[*types.Func][]*ssa.Function{}
@@ -477,6 +618,15 @@ func invokeTargets(c *ssa.CallCommon) []*ssa.Function {
 		}
 	}
 	invokeMemo[c.Method] = out
+	return out
+}
+
+func luaSharedNames() []string {
+	out := []string{}
+	for g := range luaShared {
+		out = append(out, gname(g))
+	}
+	sort.Strings(out)
 	return out
 }
 
@@ -535,6 +685,7 @@ func main() {
 		os.Exit(2)
 	}
 	fns := l.SortedFuncs()
+	findLuaShared(l)
 	// worklist fixpoint: re-analyse a function only when the summary of a static callee changed
 	for _, fn := range fns {
 		if fn.Signature.Recv() != nil && tx.InModule(fn) && fn.Parent() == nil && len(fn.Blocks) > 0 && fn.Synthetic == "" {
@@ -823,7 +974,7 @@ func main() {
 		}
 	}
 	if *jout != "" {
-		data, _ := json.MarshalIndent(map[string]interface{}{"rows": list, "allow_unused": unusedAllow, "packages": len(allv), "vars_in_scopes": nall,
+		data, _ := json.MarshalIndent(map[string]interface{}{"rows": list, "allow_unused": unusedAllow, "lua_shared_candidates": luaSharedNames(), "packages": len(allv), "vars_in_scopes": nall,
 			"total_s": time.Since(t0).Seconds()}, "", " ")
 		os.WriteFile(*jout, data, 0o644)
 	}
